@@ -40,7 +40,7 @@ class C11(Prop):
     thorough_cases = 300
     shard = 4
     procs = 6
-    rule = ("scenarios against a real exporter on 127.0.0.1 with real client sockets: buffer_size in {None,1,2,3,8,64,1024}; "
+    rule = ("scenarios against a real exporter on 127.0.0.1 with real client sockets: buffer_size in {None,0,1,2,3,8,64,1024}; "
             "1-4 clients drawn from fast reader / stalled reader (SO_RCVBUF 1024, exporter SO_SNDBUF shrunk, reads only at the end) / "
             "close after phase 1 / RST (SO_LINGER 0) after phase 1 / late joiner; 0-4 describes before the first connect and 0-2 between "
             "the phases; 1-3 emitting threads with counter/gauge/histogram operations, labels and numbered values, paced so that at most "
@@ -62,8 +62,8 @@ class C11(Prop):
     level_note = ("Partial: C11_spec_ok_on_model_partial proves the start-up and counter clauses of spec_ok for the model's own output; the stream clause is proved at the Prop level "
                   "(C11_stream_integrity, C11_prefix_...) and its boolean form by reflection from that shape (C11_stream_log_ok_reflect), but the bookkeeping that instantiates the reflection "
                   "lemma with the model's own run (model metadata map = the spec's log view up to permutation; streams of removed clients) is not done; the end-to-end clause (every emission delivered, "
-                  "name/labels/operation intact, per-thread order) is checked on every run against the harness's emission list, not proved: it depends on the channel, "
-                  "the should_send gate seen from other threads and prost's Metric encoding, none of which is modelled. `overflowed` is a ghost flag set where drop-oldest "
+                  "name/labels/operation intact, per-thread order; log_harness_ok) is checked on every run against the harness's emission list, not proved: it depends on the channel "
+                  "and the should_send gate seen from other threads, which are not modelled (the Metric encoding is modelled, proved invertible and compared byte for byte per run). `overflowed` is a ghost flag set where drop-oldest "
                   "discards (to_drain > 0). Trusted: Coq kernel; hand-written model; cfg(metrics_verif) hooks (event log, socket wrapper that scripts some write results).")
     assumptions = [
         "mio readiness, kernel socket buffers and the crossbeam channel are the runtime's (exercised, not modelled); the harness paces emissions so that at most buffer_size channel messages are in flight",
